@@ -24,8 +24,28 @@ def t10(n, shift=0):
     return [100 + shift + 10 * i for i in range(n)]
 
 
-def equal_flags(ck, rule, key, la, oa, lb, ob, what, perm=None, only=None):
+def equal_flags(ck, rule, key, la, oa, lb, ob, what, perm=None, only=None, relation=None):
     """two outcomes must give equivalent flag expressions position by position"""
+    rel = relation or same
+    if 'refused' in (oa.kind, ob.kind):
+        # symbolic interpretation refused for at least one of the two runs: compare both on exact representative data
+        from ..qc import concrete_envs, concretised, concrete_result_flags
+        ca, cb = getattr(oa, 'case', None), getattr(ob, 'case', None)
+        if ca is None or cb is None:
+            raise (getattr(oa, 'error', None) or getattr(ob, 'error', None))
+        ck.rule_counts['concretised-fallback'] = ck.rule_counts.get('concretised-fallback', 0) + 1
+        for env in concrete_envs([ca, cb], ck.rng, 12):
+            xa, xb = run_case(ck, concretised(ca, env)), run_case(ck, concretised(cb, env))
+            if xa.kind == 'raise' or xb.kind == 'raise':
+                ck.ob(rule, f'{la} ~ {lb}', xa.kind == xb.kind, key=f'{key}:raise-differs', what=f'{what}: {xa.case.label}: one raises, the other does not')
+                continue
+            fa, fb = concrete_result_flags(xa), concrete_result_flags(xb)
+            n = len(fa)
+            okc = len(fa) == len(fb) and all(rel(fa[p][0], fb[perm(p) if perm else p][0]) and fa[p][1] == fb[perm(p) if perm else p][1]
+                                             for p in range(n) if only is None or p in only)
+            ck.ob(rule, f'{la} ~ {lb} [concretised]', okc, key=f'{key}:concretised-differs',
+                  what=f'{what}: {xa.case.label} gives {[sorted(map(str, f[0])) for f in fa]} but {lb} gives {[sorted(map(str, f[0])) for f in fb]}')
+        return
     if oa.kind == 'raise' or ob.kind == 'raise':
         ok = oa.kind == ob.kind
         ck.ob(rule, f'{la} ~ {lb}', ok, key=f'{key}:raise-differs', what=f'{what}: {la} and {lb}: one raises, the other does not')
@@ -44,7 +64,7 @@ def equal_flags(ck, rule, key, la, oa, lb, ob, what, perm=None, only=None):
         if ea.m != eb.m:
             ck.violate(rule, f'{key}:mask', f'{what}: mask differs at {p}')
             continue
-        compare_pair(ea.d, eb.d, same, ck.rng, res, f'{la} @ {p}')
+        compare_pair(ea.d, eb.d, rel, ck.rng, res, f'{la} @ {p}')
     ck.evaluations += res.cells
     ck.distinct.update(res.distinct)
     for m in res.mismatches:
@@ -60,7 +80,7 @@ def run_pair(ck, test, mk, meta=None):
     for variant in ('base', 'xf'):
         args, kw, label = mk(variant)
         c = Case(test, args, kw, n=0, pat={}, meta=dict(meta or {}, **{'class': 'invariance'}), label=label)
-        outs.append((label, run_case(ck, c), c))
+        outs.append((label, run_case(ck, c, allow_refused=True), c))
     return outs
 
 
@@ -86,7 +106,7 @@ def value_transforms(ck):
             for pat in pats:
                 base_args, base_kw = build(data_input('inp', pat), n)
                 cb = Case(test, base_args, base_kw, label=f'{name}({pat!r})', meta={'class': 'invariance'})
-                ob = run_case(ck, cb)
+                ob = run_case(ck, cb, allow_refused=True)
                 xfs = []
                 if do_shift:
                     xfs.append(('value-shift', lambda a, i: X.add(a, DELTA)))
@@ -96,13 +116,13 @@ def value_transforms(ck):
                     v = [e for e in vals('inp', pat, f)]
                     args, kw = build(v, n)
                     cx = Case(test, args, kw, label=f'{name}({pat!r}) after {tname}', meta={'class': 'invariance'})
-                    ox = run_case(ck, cx)
+                    ox = run_case(ck, cx, allow_refused=True)
                     equal_flags(ck, f'C17.{tname}', f'{fn_key(cb)}:{tname}', cb.label, ob, cx.label, ox, f'{name}: {tname}')
                 if test == 'spike_test':
                     v = [Sc(x('inp', n - 1 - i)) if pat[n - 1 - i] == 'p' else None for i in range(n)]
                     args, kw = build(v, n)
                     cx = Case(test, args, kw, label=f'{name}({pat!r}) reversed', meta={'class': 'invariance'})
-                    ox = run_case(ck, cx)
+                    ox = run_case(ck, cx, allow_refused=True)
                     equal_flags(ck, 'C17.reversal', f'{fn_key(cb)}:reversal', cb.label, ob, cx.label, ox, f'{name}: reversal',
                                 perm=lambda p, n=n: n - 1 - p)
 
@@ -113,7 +133,7 @@ def time_transforms(ck):
     def both(test, mk, label):
         ca = Case(test, *mk(0), label=f'{label}', meta={'class': 'invariance'})
         cb = Case(test, *mk(SH), label=f'{label} after time-shift', meta={'class': 'invariance'})
-        oa, ob = run_case(ck, ca), run_case(ck, cb)
+        oa, ob = run_case(ck, ca, allow_refused=True), run_case(ck, cb, allow_refused=True)
         equal_flags(ck, 'C17.time-shift', f'{fn_key(ca)}:time-shift', ca.label, oa, cb.label, ob, f'{test}: time shift')
     for n in ns:
         for pat in [p for p in patterns(n) if p.count('m') <= 1]:
@@ -137,7 +157,7 @@ def time_transforms(ck):
             ):
                 ca = Case(test, *mk(0), label=f'{test}(n={n}; 1.5 s sampling from xx.25 s)', meta={'class': 'invariance'})
                 cb = Case(test, *mk(sh), label=f'{test}(n={n}; 1.5 s sampling) after time-shift {sh} s', meta={'class': 'invariance'})
-                equal_flags(ck, 'C17.time-shift', f'{fn_key(ca)}:sub-second-time-shift', ca.label, run_case(ck, ca), cb.label, run_case(ck, cb), f'{test}: sub-second time shift')
+                equal_flags(ck, 'C17.time-shift', f'{fn_key(ca)}:sub-second-time-shift', ca.label, run_case(ck, ca, allow_refused=True), cb.label, run_case(ck, cb, allow_refused=True), f'{test}: sub-second time shift')
     # climatology (absolute span shifted too) and time-valued valid_range
     from ..models_pd import TS
     for pat in ('ppp', 'pmp'):
@@ -168,13 +188,13 @@ def joint_shift(ck):
                 return [vals('inp', pat, lambda a, i: X.add(a, X.num(s)))], kw
             ca = Case('gross_range_test', *mk(0), label=f'gross_range_test({pat!r}, suspect={ss})', meta={'class': 'invariance'})
             cb = Case('gross_range_test', *mk(D), label=f'gross_range_test({pat!r}, suspect={ss}) data and spans + {D}', meta={'class': 'invariance'})
-            equal_flags(ck, 'C17.joint-shift', f'{fn_key(ca)}:joint-shift', ca.label, run_case(ck, ca), cb.label, run_case(ck, cb), 'gross_range_test: joint shift')
+            equal_flags(ck, 'C17.joint-shift', f'{fn_key(ca)}:joint-shift', ca.label, run_case(ck, ca, allow_refused=True), cb.label, run_case(ck, cb, allow_refused=True), 'gross_range_test: joint shift')
         def mkv(s):
             cells = [El(X.add(('x', 'inp', i), X.num(s)), False) if c == 'p' else El(X.NAN, False) for i, c in enumerate(pat)]
             return [Vec.fresh(cells, kind='nd', dtype='f8', owner='inp')], dict(valid_span=(Fr(1) + s, Fr(5) + s))
         ca = Case('valid_range_test', *mkv(0), label=f'valid_range_test({pat!r})', meta={'class': 'invariance'})
         cb = Case('valid_range_test', *mkv(D), label=f'valid_range_test({pat!r}) data and span + {D}', meta={'class': 'invariance'})
-        equal_flags(ck, 'C17.joint-shift', f'{fn_key(ca)}:joint-shift', ca.label, run_case(ck, ca), cb.label, run_case(ck, cb), 'valid_range_test: joint shift')
+        equal_flags(ck, 'C17.joint-shift', f'{fn_key(ca)}:joint-shift', ca.label, run_case(ck, ca, allow_refused=True), cb.label, run_case(ck, cb, allow_refused=True), 'valid_range_test: joint shift')
 
 
 # ---- locality ------------------------------------------------------------------------------------
@@ -219,7 +239,7 @@ def locality(ck):
                 if pat not in cache:
                     args, kw = build(pat)
                     c = Case(test, args, kw, label=f'{test}({pat!r}; {sorted(k for k in kw if k not in ("inp", "tinp", "zinp", "config"))})', meta={'class': 'locality'})
-                    cache[pat] = (c, run_case(ck, c))
+                    cache[pat] = (c, run_case(ck, c, allow_refused=True))
                 return cache[pat]
             for pat in base_pats:
                 c, o = run(pat)
@@ -246,7 +266,7 @@ def locality(ck):
             for plon in [p for p in patterns(n) if p.count('m') <= 1]:
                 kw = {} if rmax is None else dict(range_max=rmax)
                 c = Case('location_test', [data_input('lon', plon), data_input('lat', 'p' * n)], kw, label=f'location_test(lon:{plon!r}; range_max={rmax})', meta={'class': 'locality'})
-                o = run_case(ck, c)
+                o = run_case(ck, c, allow_refused=True)
                 if o.kind != 'return':
                     continue
                 for p, e in enumerate(o.value.els()):
@@ -256,7 +276,7 @@ def locality(ck):
                           what=f'{c.label}: the flag at {p} depends on position(s) {bad} outside its neighbourhood')
             c = Case('speed_test', [data_input('lon', 'p' * n), data_input('lat', 'p' * n), time_input('tinp', t10(n))],
                      dict(suspect_threshold=Fr(1), fail_threshold=Fr(2)), label=f'speed_test(n={n})', meta={'class': 'locality'})
-            o = run_case(ck, c)
+            o = run_case(ck, c, allow_refused=True)
             if o.kind == 'return':
                 for p, e in enumerate(o.value.els()):
                     atoms = {a[2] for a in X.data_atoms(e.d)}
